@@ -292,10 +292,13 @@ func (e *Engine) snapshot(s *State, v Val) Val {
 		return v
 	}
 	r := e.newRef(s)
-	nm := "M_" + sortTag(so)
-	m := e.heapArr(s, nm, refArrSort(arrSort(so)))
-	inner := e.name(s, sel(m, sv.Ref, arrSort(so)))
-	e.hset(s, nm, e.name(s, sto(m, r, inner)), HWrite{Ref: r, Val: inner, Whole: true})
+	_ = so
+	// every leaf array the element type is laid out in (a string element lives in ME_string, not in M_Str)
+	for _, l := range elemLeaves(sv.Elem, elemPrefix(sv.Elem)) {
+		m := e.leafArr(s, l)
+		inner := e.name(s, sel(m, sv.Ref, arrSort(l.sort)))
+		e.hset(s, l.name, e.name(s, sto(m, r, inner)), HWrite{Ref: r, Val: inner, Whole: true})
+	}
 	return SliceV{r, sv.Off, sv.Len, sv.Cap, sv.Elem}
 }
 
